@@ -706,6 +706,10 @@ def step {w : Nat} (st : St w) (line : String) : Res w :=
       (st, fmtBool (decide (ks = kb)) ++ "," ++ fmtBool (decide (kb = ks)),
         fmtBool (decide (es.map (·.1) = eb.map (·.1))) ++ "," ++ fmtBool (decide (eb.map (·.1) = es.map (·.1))))
     | _, _ => bad st
+  | ["copy_from", ra, rb] =>
+    match st.get ra with
+    | some (ma, ea) => okok (st.set rb ma ea)
+    | none => bad st
   | ["copy", ra, rb] =>
     match st.get ra with
     | some (ma, ea) => okok (st.set rb ma ea)
